@@ -170,6 +170,12 @@ def run_case(rng, idx, tier, ctx):
         if kind == "WRITE" and rng.random() < 0.4:
             f["act"], f["frac"] = "torn", rng.choice([0.1, 0.5, 0.9])
         plan2 = {"seed": plan["seed"], "perm": True, "faults": [f], "hard": True}
+        if rng.random() < 0.3 and not knobs.get("tmpdir_rel") and "\udcff" not in knobs.get("tmpdir", ""):
+            # TMPDIR on another file system (every rename out of it is refused) and, on top of that, copying or writing
+            # below the source tree fails part of the way: whatever the tool falls back to must not eat the original
+            plan2 = {"seed": plan["seed"], "perm": True, "hard": True, "mount": knobs.get("tmpdir", "tmp").rstrip("/"),
+                     "faults": [{"from": 1, "kinds": ["COPY", "WRITE"], "pre": "proj/src", "nth": rng.randrange(1, 3),
+                                 "act": rng.choice(["fail", "torn"]), "errno": rng.choice(["ENOSPC", "EIO"]), "frac": 0.5}]}
         vs, info2 = evaluate(wm, knobs, plan2, ctx)
         if info2["fired"]:
             ctx.probes["hard_fault_run"] += 1
